@@ -579,6 +579,35 @@ class Rot(_ModeMixin, DisjointUnionStrategy):
         return f"Rot({self.mode!r},{self.k},{self.two_way},{self.perm!r}{',restricted=' + str(self.restricted) if self.restricted else ''}{',reversible=' + str(self.reversible) if self.reversible is not None else ''})"
 
 
+class RotPad(Rot):
+    """the same relabelling written as a union with an empty first child, P = (empty class) + relabelled P: the only non-empty
+    child of the rule is child 1, so its equivalence form and the reverse of that have to keep track of the child's index"""
+
+    @staticmethod
+    def _empty(c):
+        a = c.alphabet[0]
+        return PW(a, [a], c.alphabet, False, ())
+
+    def decomposition_function(self, c):
+        kids = super().decomposition_function(c)
+        return None if kids is None else (self._empty(c),) + kids
+
+    def extra_parameters(self, c, children=None):
+        return ({},) + super().extra_parameters(c, children)
+
+    def forward_map(self, c, w, children=None):
+        return (None,) + super().forward_map(c, w, children)
+
+    def backward_map(self, c, ws, children=None):
+        yield from super().backward_map(c, ws[1:], children)
+
+    def formal_step(self):
+        return "padded " + super().formal_step()
+
+    def __repr__(self):
+        return "RotPad" + super().__repr__()[3:]
+
+
 class RotNE(Rot):
     """the same relabelling, declared two-way but (conservatively) not an equivalence: stored with the two-way rules, never
     folded into equivalence paths"""
@@ -1046,6 +1075,8 @@ def make_pack(mode="", inferral=False, symmetry=False, iterative=False, factory=
         exp = [[Rot(mode, 1, False, reversible=True), Rot(mode, 2, True)]] + exp
     elif rot == "ow":  # the rotation and its inverse, both one-way: overlapping cycles of one-way rules
         exp = [[Rot(mode, 1, False), Rot(mode, 2, False)]] + exp
+    elif rot == "pad":  # relabellings written as unions with an empty first child: equivalences whose non-empty child is not child 0
+        exp = [[RotPad(mode, 1, True)]] + exp  # no inverse relabelling in the pack: going back means walking the rule backwards
     elif rot == "perm":  # a rotation and a transposition of three letters: equivalence paths whose bijections do not commute
         exp = [[Rot(mode, 1, True), Rot(mode, 1, True, "bac")]] + exp
     elif rot:
